@@ -1579,6 +1579,11 @@ bool MEDDLY::dd_edge::getElemInt(long index, minterm &m) const
         //
         // I don't think index sets can skip levels at all
         //
+        if (fp->isTerminalNode(p)) {
+            // Empty set (or nothing below): no element has this index.
+            unpacked_node::Recycle(U);
+            return false;
+        }
         MEDDLY_DCASSERT(k == fp->getNodeLevel(p));
         U->initFromNode(p);
 
@@ -1636,6 +1641,11 @@ bool MEDDLY::dd_edge::getElemLong(long index, minterm &m) const
         //
         // I don't think index sets can skip levels at all
         //
+        if (fp->isTerminalNode(p)) {
+            // Empty set (or nothing below): no element has this index.
+            unpacked_node::Recycle(U);
+            return false;
+        }
         MEDDLY_DCASSERT(k == fp->getNodeLevel(p));
         U->initFromNode(p);
 
